@@ -1,8 +1,8 @@
 (* Properties_C09.v — property C09: suggested code is valid Go and applying a fix never damages the
    file.  Theorem-level part: the edit algebra, the comment fix, the Suggest-template table.
    "Still parses and type-checks" for arbitrary programs is decided by the oracle only (DESIGN.md §9). *)
-From GC Require Import Base Model_Cli Model_Edit Proofs_Edit.
-From GCgen Require Import SuggestTable.
+From GC Require Import Base Model_Cli Model_Edit Proofs_Edit Model_Prec Proofs_Prec Model_PrecParse Proofs_PrecParse.
+From GCgen Require Import SuggestTable PrecTable.
 
 (* Applying a fix changes nothing outside its range, for every file, range and replacement. *)
 Theorem C09_apply_outside_unchanged_prefix : forall src from to repl, from <= String.length src ->
@@ -51,6 +51,147 @@ Theorem C09_suggest_cut_refuted :
                    s_dropped_wildcards := ["$*_"]; s_has_placeholder := true |} = false.
 Proof. vm_compute. auto. Qed.
 Print Assumptions C09_suggest_cut_refuted.
+
+(* ---- Suggest templates are rendered TEXTUALLY ($x := source text of the matched node): precedence ---- *)
+
+(* the rendered text is the printing of the tree the template denotes, for every template and all bindings *)
+Theorem C09_render_is_tree_substitution : forall s e, pp (subst s e) = tsubst s (pp e).
+Proof. exact pp_subst. Qed.
+Print Assumptions C09_render_is_tree_substitution.
+
+(* if every placeholder sits where the template accepts the level its binding is known to have, the rendered
+   text is read by Go's (stratified) expression grammar as exactly that tree ... *)
+Theorem C09_template_subst_parses : forall g g' s tpl, respects g g' s -> wp g tpl = true ->
+  G g' (level g tpl) (tsubst s (pp tpl)) (subst s tpl).
+Proof. exact template_subst_parses. Qed.
+Print Assumptions C09_template_subst_parses.
+
+(* ... and it stays one sub-tree inside EVERY context that accepted the matched code, provided the template is not
+   looser than the pattern it replaces (the context's hole is "@") *)
+Theorem C09_fix_in_context_parses : forall g g' s pat tpl ctx lvl_ctx,
+  respects g g' s -> wp g tpl = true -> level g pat <= level g tpl ->
+  wp (fun y => if String.eqb y "@" then level g pat else g' y) ctx = true ->
+  lvl_ctx = level (fun y => if String.eqb y "@" then level g pat else g' y) ctx ->
+  G g' lvl_ctx (tsubst (hole_sub "@" (subst s tpl)) (pp ctx)) (subst (hole_sub "@" (subst s tpl)) ctx).
+Proof. exact fix_in_context_parses. Qed.
+Print Assumptions C09_fix_in_context_parses.
+
+(* Over the (pattern, template) pairs regenerated from the executed rule IR on every run: every pair satisfies both
+   conditions (what the pattern guarantees about a binding = the tightest position it was matched in, or level 4 for
+   placeholders whose type is known not to be boolean) except the ten pairs below, which are genuinely unsafe on the
+   unchanged tree (recorded findings; witnesses found by the oracle's operand/context variants). *)
+Definition known_prec_unsafe : list (string * string * string) :=
+  [("redundantSprint", "fmt.Sprint($x)", "$x.String()"); ("redundantSprint", "fmt.Sprintf(""%s"", $x)", "$x.String()");
+   ("redundantSprint", "fmt.Sprintf(""%v"", $x)", "$x.String()");
+   ("redundantSprint", "fmt.Sprint($x)", "$x"); ("redundantSprint", "fmt.Sprintf(""%s"", $x)", "$x");
+   ("redundantSprint", "fmt.Sprintf(""%v"", $x)", "$x");
+   ("preferStringWriter", "io.WriteString($w, $s)", "$w.WriteString($s)");
+   ("stringConcatSimplify", "strings.Join([]string{$x, $y}, """")", "$x + $y");
+   ("stringConcatSimplify", "strings.Join([]string{$x, $y, $z}, """")", "$x + $y + $z");
+   ("stringConcatSimplify", "strings.Join([]string{$x, $y}, $glue)", "$x + $glue + $y")].
+Definition is_known_unsafe (e : prec_entry) : bool :=
+  existsb (fun k => let '(g, p, t) := k in String.eqb g (pe_group e) && String.eqb p (pe_pattern e) && String.eqb t (pe_template e))
+          known_prec_unsafe.
+(* diagnostics for a broken obligation: the pairs that are unsafe and not listed *)
+Eval vm_compute in map (fun e => (pe_group e, pe_pattern e, pe_template e, holes_ok e, context_ok e))
+                       (filter (fun e => negb (entry_ok e || is_known_unsafe e)) prec_table).
+Theorem C09_prec_table_ok_partial : forallb (fun e => entry_ok e || is_known_unsafe e) prec_table = true.
+Proof. vm_compute. reflexivity. Qed.
+Print Assumptions C09_prec_table_ok_partial.
+Theorem C09_prec_table_parsed : prec_unparsed = [] /\ (60 <=? length prec_table)%nat = true.
+Proof. vm_compute. auto. Qed.
+Print Assumptions C09_prec_table_parsed.
+
+(* what the table obligation means for a pair that passes it: for all bindings as tight as the pattern guarantees and all
+   contexts that accepted the match, the fixed text is read as the intended tree *)
+Theorem C09_prec_entry_safe : forall e g' s ctx, In e prec_table -> entry_ok e = true ->
+  respects (guar e) g' s ->
+  wp (fun y => if String.eqb y "@" then level (guar e) (pe_pat e) else g' y) ctx = true ->
+  G g' (level (fun y => if String.eqb y "@" then level (guar e) (pe_pat e) else g' y) ctx)
+       (tsubst (hole_sub "@" (subst s (pe_tpl e))) (pp ctx)) (subst (hole_sub "@" (subst s (pe_tpl e))) ctx).
+Proof.
+  intros e g' s ctx _ Hok Hs Hctx. destruct (entry_ok_spec e Hok) as [Hw Hl].
+  eapply fix_in_context_parses; eauto.
+Qed.
+Print Assumptions C09_prec_entry_safe.
+
+(* the two ways an unsafe pair fails, as derivations of a DIFFERENT tree from the rendered text:
+   fmt.Sprint( *p ) => *p.String() is read as *(p.String());  strings.Join([]string{a,b},"")[1:] => a + b[1:] as a + (b[1:]) *)
+Theorem C09_sprint_template_regroups_refuted :
+  G (fun _ => 0) 0 (tsubst sprint_sub (pp sprint_tpl)) sprint_actual /\ sprint_actual <> sprint_intended
+  /\ wp (fun _ => 0) sprint_tpl = false.
+Proof. exact sprint_regroups. Qed.
+Print Assumptions C09_sprint_template_regroups_refuted.
+Theorem C09_concat_template_regroups_refuted :
+  G (fun _ => 0) 0 (tsubst (hole_sub "@" (subst concat_sub concat_tpl)) (pp slice_ctx)) concat_actual
+  /\ concat_actual <> concat_intended.
+Proof. exact concat_regroups. Qed.
+Print Assumptions C09_concat_template_regroups_refuted.
+
+(* ---- the parser: precedence climbing as go/parser does it (Model_PrecParse, tied to go/parser + go/scanner on
+   generated expressions every run) ---- *)
+
+(* the parser reads the printed tokens of every good, well-precedenced closed tree back as that very tree, at every
+   precedence the tree is tight enough for, whatever follows it, provided what follows cannot continue the expression;
+   "enough fuel" is explicit: running out of fuel is the error value None *)
+Theorem C09_parser_reads_printed_tree : forall t q rest, good t = true -> wp g0 t = true ->
+  1 <= q -> q <= level g0 t -> nosuffix rest = true -> bp_head rest < q ->
+  exists f0, forall f, f0 <= f -> parse_bin f q (pp t ++ rest)%list = Some (t, rest).
+Proof. exact parse_print. Qed.
+Print Assumptions C09_parser_reads_printed_tree.
+
+(* end to end: under the two table conditions, the text a fix produces in ANY context that accepted the match is parsed
+   to exactly the tree the template denotes (no appeal to unambiguity of the grammar) *)
+Theorem C09_fixed_text_parses_to_intended_tree : forall g s pat tpl ctx,
+  respects g g0 s -> wp g tpl = true -> level g pat <= level g tpl ->
+  wp (fun y => if String.eqb y "@" then level g pat else 0) ctx = true ->
+  good (subst (hole_sub "@" (subst s tpl)) ctx) = true ->
+  exists f0, forall f, f0 <= f ->
+    parse_expr f (tsubst (hole_sub "@" (subst s tpl)) (pp ctx)) = Some (subst (hole_sub "@" (subst s tpl)) ctx).
+Proof. exact fixed_text_parses_to_intended_tree. Qed.
+Print Assumptions C09_fixed_text_parses_to_intended_tree.
+
+(* and the unsafe pairs, decided by the parser itself: the rendered text parses to the unintended tree *)
+Theorem C09_unsafe_pairs_parse_to_other_tree_refuted :
+  parse_expr 40 (tsubst sprint_sub (pp sprint_tpl)) = Some sprint_actual /\ sprint_actual <> sprint_intended
+  /\ parse_expr 40 (tsubst (hole_sub "@" (subst concat_sub concat_tpl)) (pp (EApp (EHole "@") "[" "]" [EAtom "1"])))
+      = Some (EBin 4 "+" (EAtom "a") (EApp (EAtom "b") "[" "]" [EAtom "1"])).
+Proof. vm_compute. repeat split; try reflexivity. discriminate. Qed.
+Print Assumptions C09_unsafe_pairs_parse_to_other_tree_refuted.
+
+(* ---- a hand-written checker that builds its suggestion as text: underef (model tied to the checker's printed
+   suggestions on every run, cases_c09_underef) ---- *)
+
+(* the suggestion for a selector on a parenthesised dereference of X parses to the selector on X whenever X is a primary
+   expression, and to the selector on the parenthesised X when X is itself a dereference ... *)
+Theorem C09_underef_suggestion_partial : forall x f, good x = true -> wp g0 x = true -> is_punct f = false ->
+  (level g0 x = 7 -> exists f0, forall k, f0 <= k -> parse_expr k (underef_sel_text x f) = Some (ESel x f))
+  /\ (forall y, x = EUn "*" y -> 6 <= level g0 y ->
+        exists f0, forall k, f0 <= k -> parse_expr k (underef_sel_text x f) = Some (ESel (EParen x) f)).
+Proof.
+  intros x f Hg Hw Hf. split.
+  - intros H7. exact (underef_sel_primary x f Hg Hw H7 Hf).
+  - intros y -> H6. cbn [good] in Hg. apply andb_true_iff in Hg as [_ Hgy]. cbn [wp] in Hw. apply andb_true_iff in Hw as [Hwy _].
+    exact (underef_sel_star y f Hgy Hwy H6 Hf).
+Qed.
+Print Assumptions C09_underef_suggestion_partial.
+(* ... the full statement (for EVERY operand the checker accepts) is false: any other unary operand regroups (recorded finding) *)
+Theorem C09_underef_suggestion_refuted :
+  parse_expr 20 (underef_sel_text (EUn "&" (EAtom "x")) "v") = Some (EUn "&" (ESel (EAtom "x") "v"))
+  /\ parse_expr 20 (underef_sel_text (EUn "<-" (EAtom "ch")) "v") = Some (EUn "<-" (ESel (EAtom "ch") "v"))
+  /\ underef_sel_tree (EUn "&" (EAtom "x")) "v" = ESel (EUn "&" (EAtom "x")) "v".
+Proof. exact underef_sel_unary_regroups. Qed.
+Print Assumptions C09_underef_suggestion_refuted.
+
+(* non-vacuity: a safe pair of the table with a concrete binding and context *)
+Example C09_example_prec :
+  let e := {| pe_group := "x"; pe_line := 0; pe_pattern := ""; pe_template := "";
+              pe_pat := EBin 3 "==" (EApp (ESel (EAtom "strings") "Compare") "(" ")" [EHole "s1"; EHole "s2"]) (EAtom "0");
+              pe_tpl := EBin 3 "==" (EHole "s1") (EHole "s2"); pe_floor := [("s1", 4); ("s2", 4)] |} in
+  entry_ok e = true
+  /\ pp (subst (fun y => if String.eqb y "s1" then Some (EBin 4 "+" (EAtom "a") (EAtom "b")) else if String.eqb y "s2" then Some (EAtom "c") else None) (pe_tpl e))
+     = [T "a"; T "+"; T "b"; T "=="; T "c"].
+Proof. vm_compute. auto. Qed.
 
 Example C09_example_edit :
   apply_edit "x := a+0; y()" 5 8 "a" = "x := a; y()"
